@@ -633,11 +633,11 @@ pub fn run(rep: &mut StageReport, tier: &str, _seed: u64) {
         plan.push((role, role, 3, 10, 5, 1)); // more outages than attempts: per-outage budget
         plan.push((role, role + 1, 1, 5, 3, 0)); // a single attempt per outage, cut before any further traffic
     }
-    if thorough {
-        for role in 0..4 {
-            for (kind, attempts, step, outages, before) in [(0usize, 2u32, 1u64, 12usize, 3usize), (1, 4, 20, 6, 0), (2, 3, 5, 10, 2), (0, 1, 1, 25, 1), (2, 2, 15, 8, 5)] {
-                plan.push((role, kind, attempts, step, outages, before));
-            }
+    for role in 0..4 {
+        // quick: two more configurations per role; thorough: five
+        let extra: &[(usize, u32, u64, usize, usize)] = if thorough { &[(0, 2, 1, 12, 3), (1, 4, 20, 6, 0), (2, 3, 5, 10, 2), (0, 1, 1, 25, 1), (2, 2, 15, 8, 5)] } else { &[(2, 2, 3, 6, 2), (1, 4, 8, 5, 0)] };
+        for (kind, attempts, step, outages, before) in extra.iter().copied() {
+            plan.push((role, kind, attempts, step, outages, before));
         }
     }
     let mut cycles = 0u64;
@@ -670,9 +670,7 @@ pub fn run(rep: &mut StageReport, tier: &str, _seed: u64) {
         // exhaustion + unrecoverable, every role
         for role in 0..4usize {
             for (attempts, unrec) in [(3u32, false), (1, false), (2, true)] {
-                if !thorough && attempts == 1 {
-                    continue;
-                }
+
                 let role_name = ["publisher", "subscriber", "requestor", "replier"][role];
                 let cfg = json!({"role": role_name, "max_attempts": attempts, "fault": if unrec { "re-registration refused with a non-retryable error code" } else { "every reconnect attempt fails in the TLS handshake (foreign CA)" }});
                 let r = match tokio::time::timeout(Duration::from_secs(120), exhaustion(role, &certs.0, &certs.1, attempts, role as u64 * 10 + attempts as u64, unrec)).await {
